@@ -137,6 +137,7 @@ func (rc *runCtx) addFailure(f *failure) {
 	}
 	if f.Crash {
 		rc.crashes++
+		rc.runs++ // the run that killed its worker never made it into a STAT record
 	}
 	if len(rc.failures) < 400 {
 		rc.failures = append(rc.failures, f)
